@@ -58,6 +58,33 @@ Definition melt_model (key : option val) (variables : option val) (variablefield
   end.
 
 (* ---- recast (scalar variablefield, no reducers: several values are listed) ----------------------------------- *)
+(* the cell of one output row under one variable: the values the group's rows carry for it *)
+Definition recast_cell (varidx vidx : Z) (missing : val) (grows : list row) (variable : val) : res val :=
+  match all_some (map (fun r => match py_nth r varidx, py_nth r vidx with
+                                | Some a, Some b => Some (a, b)
+                                | _, _ => None end) grows) with
+  | None => Err IndexErr
+  | Some pairs =>
+      let vals := map snd (filter (fun p => py_eq (fst p) variable) pairs) in
+      Ok (match vals with [] => missing | [x] => x | _ => VSeq true vals end)
+  end.
+
+(* one output row per key group: the key cells followed by one cell per variable *)
+Definition recast_group (kidx : list Z) (varidx vidx : Z) (missing : val) (vars : list val) (g : grp) : res row :=
+  match snd g with
+  | [] => Err OtherErr
+  | r0 :: _ =>
+      match raw_getkey kidx r0 with
+      | None => Err IndexErr
+      | Some kv =>
+          let kcells := match kidx with [_] => [kv] | _ => match kv with VSeq _ l => l | x => [x] end end in
+          match mapM (recast_cell varidx vidx missing (snd g)) vars with
+          | Ok cells => Ok (kcells ++ cells)
+          | Err e => Err e
+          end
+      end
+  end.
+
 Definition recast_model (key : option val) (variablefield valuefield : val) (samplesize : nat) (missing : val)
            (bs : option nat) (t : table) : gen :=
   match t with
@@ -83,29 +110,7 @@ Definition recast_model (key : option val) (variablefield valuefield : val) (sam
               | _ =>
                   match sort_model bs false (Some (VSeq true keyfields)) (hdr :: rows) with
                   | (_ :: srows, None) =>
-                      let '(out, e) :=
-                        gen_map (fun g : grp =>
-                          match snd g with
-                          | [] => Err OtherErr
-                          | r0 :: _ =>
-                              match raw_getkey kidx r0 with
-                              | None => Err IndexErr
-                              | Some kv =>
-                                  let kcells := match kidx with [_] => [kv] | _ => match kv with VSeq _ l => l | x => [x] end end in
-                                  match mapM (fun variable =>
-                                                match all_some (map (fun r => match py_nth r varidx, py_nth r vidx with
-                                                                              | Some a, Some b => Some (a, b)
-                                                                              | _, _ => None end) (snd g)) with
-                                                | None => Err IndexErr
-                                                | Some pairs =>
-                                                    let vals := map snd (filter (fun p => py_eq (fst p) variable) pairs) in
-                                                    Ok (match vals with [] => missing | [x] => x | _ => VSeq true vals end)
-                                                end) vars with
-                                  | Ok cells => Ok (kcells ++ cells)
-                                  | Err e => Err e
-                                  end
-                              end
-                          end) (groupby (getkey kidx) srows) in
+                      let '(out, e) := gen_map (recast_group kidx varidx vidx missing vars) (groupby (getkey kidx) srows) in
                       (outhdr :: out, e)
                   | (_, Some e) => ([outhdr], Some e)
                   | ([], None) => ([outhdr], None)
